@@ -1813,6 +1813,7 @@ fn run_simplify_batch(cx: &mut Cx, trees: &[T])
 fn replay(cx: &mut Cx, input: &str)
 {
 	if let Some(e) = input.strip_prefix("U ") {check_unwritable(cx, e); return;}
+	if input.starts_with("H ") {evaluate_history(cx); return;}
 	if let Some(stmt) = input.strip_prefix("X ")
 	{
 		// statement text: `<.name | name> <expr>;`
@@ -1921,6 +1922,90 @@ fn run_table_stream(cx: &mut Cx)
 		}
 		cx.report.hit_n("table statements (one parser)", n as u64);
 		check_table(cx, &text, &want);
+	}
+	// tables whose first ~1100 statements wait for a name defined at the very end (a forward reference BELOW an operator), followed by
+	// ordinary expression statements: what an expression evaluates to does not depend on how many statements waited before it
+	for variant in 0..if cx.thorough() {8} else {2}
+	{
+		let mut rng = cx.rng.fork();
+		let nfwd = 1050 + rng.below(200) as usize;
+		let nord = 150 + rng.below(100) as usize;
+		let mut text = String::from(".addr 0;\n");
+		let mut want = Vec::new();
+		// the name is a constant (variant even) or a label behind everything (odd)
+		let fwd_value: i64 = if variant % 2 == 0 {rng.range(0, 5000)} else {(nfwd + nord) as i64};
+		for k in 0..nfwd
+		{
+			let k = k as i64;
+			match k % 3
+			{
+				0 => {let _ = write!(text, ".du8 ((fwd + {k}) & 0xFF);{}", if k % 7 == 0 {"\n"} else {" "}); want.push(((fwd_value + k) & 0xFF) as u8);},
+				1 => {let _ = write!(text, ".du8 (-(fwd - {k})) & 0xFF; "); want.push(((-(fwd_value - k)) & 0xFF) as u8);},
+				_ => {let _ = write!(text, ".du8 ((fwd * 3 + {k}) >> 1) & 0xFF; "); want.push((((fwd_value * 3 + k) >> 1) & 0xFF) as u8);},
+			}
+		}
+		let mut made = 0;
+		while made < nord
+		{
+			let x = if made % 5 == 0 {X::Bin(ADD, Box::new(X::Lit(1, Form::Dec)), Box::new(X::Lit(2, Form::Dec)))} else {gen_x(&mut rng, 1 + (made % 3) as u32)};
+			let Spec::Val(v) = spec(&x.tree()) else {continue};
+			let _ = write!(text, ".du8 ({}) & 0xFF;{}", x.text((made % 3) as u8), if made % 5 == 0 {"\n"} else {" "});
+			want.push((v & 0xFF) as u8);
+			made += 1;
+		}
+		if variant % 2 == 0 {let _ = write!(text, "\n.const fwd, {fwd_value};\n");} else {text.push_str("\nfwd:\n");}
+		cx.report.hit_n("table statements behind > 1024 waiting statements", (nfwd + nord) as u64);
+		check_table(cx, &text, &want);
+	}
+	evaluate_history(cx);
+}
+
+/// library level (`H <rounds>`): one `Context`, alternating failing and succeeding `evaluate` calls; every call gives what a fresh Context gives
+fn evaluate_history(cx: &mut Cx)
+{
+	let rounds = 1500usize;
+	let input = format!("H {rounds}");
+	let fails: [(T, &str); 5] = [
+		(bin(ADD, bin(DIV, T::C(1), T::C(0)), T::C(1)), "overflow dividebyzero"),
+		(T::Neg(Box::new(bin(ADD, T::C(i64::MAX), T::C(1)))), "overflow add"),
+		(bin(SUB, bin(MUL, bin(DIV, T::C(1), T::C(0)), T::C(2)), T::C(3)), "overflow dividebyzero"),
+		(bin(MUL, bin(ADD, T::I("nosuch".to_owned()), T::C(1)), T::C(2)), "nosuch"),
+		(T::Not(Box::new(bin(SUB, T::C(i64::MIN), T::C(1)))), "overflow subtract"),
+	];
+	let oks: [(T, i64); 4] = [(bin(ADD, T::C(1), T::C(2)), 3), (bin(SUB, bin(MUL, T::C(7), T::C(6)), T::C(2)), 40), (T::Neg(Box::new(T::Not(Box::new(T::C(0))))), 1), (bin(DIV, T::C(-9), T::C(2)), -4)];
+	let r = guarded(||
+	{
+		let directives = DirectiveList::generate();
+		let ctx = Context::new(&Arm6M, &directives);
+		for i in 0..rounds
+		{
+			let (t, want) = &fails[i % fails.len()];
+			let mut a = t.to_arg();
+			let got = match evaluate(&mut a, &ctx)
+			{
+				Ok(_) => format!("ok {}", T::from_arg(&a).text()),
+				Err(EvalError::NoSuchVariable{..}) => "nosuch".to_owned(),
+				Err(EvalError::Overflow(e)) => format!("overflow {}", ov_name(&e)),
+				Err(e) => format!("unknown:{e:?}"),
+			};
+			if got != *want {return Some(format!("call {} (`{}`, must fail with {want}) gives {got}", 2 * i + 1, t.text()));}
+			let (t, want) = &oks[i % oks.len()];
+			let mut a = t.to_arg();
+			match evaluate(&mut a, &ctx)
+			{
+				Ok(Evaluation::Complete{..}) if T::from_arg(&a) == T::C(*want) => (),
+				other => return Some(format!("call {} (`{}` = {want}) after {} failing evaluations on the same Context gives {:?} / {}", 2 * i + 2, t.text(), i + 1, other.map(|_| ()).map_err(|e| format!("{e:?}")), T::from_arg(&a).text())),
+			}
+		}
+		None
+	});
+	cx.report.cases(2 * rounds as u64);
+	cx.report.hit_n("evaluate calls on one Context (failing / succeeding alternately)", 2 * rounds as u64);
+	match r
+	{
+		Err(p) => cx.report.oracle_fail(input, format!("panic: {p}")),
+		Ok(Some(what)) => cx.report.oracle_fail(input, what),
+		Ok(None) => (),
 	}
 }
 
